@@ -181,6 +181,11 @@ StepRules(st, self, types, cache) ==
            => (IF m.paused THEN post.status \in {"ResponderFinalizing","ResponderFinalizingTransferFinished"}
                           ELSE (IF pre.status = "TransferFinished" THEN post.status = "Completed" ELSE post.status = "ResponderCompleted"))
         THEN {} ELSE {"C03.completeMessage"})
+  (* ---------------- C01 (manager level): a responder whose channel has failed or was cancelled never reports success ---------------- *)
+  \cup (IF (has /\ ~amInit /\ pre.status \in {"Failing","Failed","Cancelling","Cancelled"} /\ st.panic = "")
+           => /\ ~Has(sends, LAMBDA n : n.msg.kind = "Complete" /\ n.msg.accepted)
+              /\ ~(reply.kind = "Complete" /\ reply.accepted)
+        THEN {} ELSE {"C01.noCompleteFromDead"})
   (* ---------------- C09 (manager level) ---------------- *)
   \cup (IF (k = "Close" /\ has /\ ~term)
            => /\ st.ret = "nil" /\ Len(TrOf(st.tr, "close")) = 1
